@@ -86,7 +86,6 @@ func c02aHistories(depth int) [][]c02Event {
 	return out
 }
 
-var c02aSrv *drv.Server
 
 func c02AnalysedSpace(depth int) *core.Space {
 	hs := c02aHistories(depth)
@@ -101,17 +100,10 @@ func c02AnalysedSpace(depth int) *core.Space {
 	return &core.Space{
 		Name: name, N: int64(len(hs)), Chunk: 200, Describe: desc, RecycleEvery: 40, PerCaseTimeoutS: 30,
 		Setup: func() {
-			if c02aSrv == nil {
-				root := drv.NewWorkspace(map[string]string{"a.lua": c02DiskText})
-				s, err := drv.Start(root, drv.Options{})
-				if err != nil {
-					panic(err)
-				}
-				c02aSrv = s
-			}
+			c02SharedServer()
 		},
 		Run: func(i int64, r *core.Result) {
-			srv := c02aSrv
+			srv := c02Srv
 			hist := hs[i]
 			r.Evaluated++
 			r.Nontrivial++
@@ -232,7 +224,6 @@ func (e c02Entry) apply(text string) (string, bool) {
 	return textref.Apply(text, e.ed.S, e.ed.E, e.ed.Ins)
 }
 
-var c02bSrv *drv.Server
 
 func c02HandlerBatchSpace(docs []string) *core.Space {
 	type first struct {
@@ -265,18 +256,11 @@ func c02HandlerBatchSpace(docs []string) *core.Space {
 			return map[string]interface{}{"text": d, "didChange_entries": []string{e1.String(), e2.String()}}
 		},
 		Setup: func() {
-			if c02bSrv == nil {
-				root := drv.NewWorkspace(map[string]string{"a.lua": c02DiskText})
-				s, err := drv.Start(root, drv.Options{})
-				if err != nil {
-					panic(err)
-				}
-				c02bSrv = s
-			}
+			c02SharedServer()
 		},
 		Run: func(i int64, r *core.Result) {
 			d, e1, e2, t1 := at(i)
-			srv := c02bSrv
+			srv := c02Srv
 			r.Evaluated++
 			want, ok := e2.apply(t1)
 			if !ok {
